@@ -312,6 +312,16 @@ def _doc(letter):
     return pdfgen.build(objs)
 
 
+def _bad_doc():
+    """a document whose extraction is abandoned half-way: its page draws a form XObject whose stream names a filter that does not exist, so the failure happens with a figure open"""
+    font = {"Type": "Font", "Subtype": "Type1", "BaseFont": "Helvetica"}
+    objs = {1: {"Type": "Catalog", "Pages": Ref(2)}, 2: {"Type": "Pages", "Kids": [Ref(4)], "Count": 1}, 3: font,
+            4: {"Type": "Page", "Parent": Ref(2), "MediaBox": [0, 0, 200, 200], "Contents": Ref(5), "Resources": {"Font": {"F1": Ref(3)}, "XObject": {"Fm1": Ref(6)}}},
+            5: Stream({}, b"BT /F1 10 Tf 10 100 Td (A) Tj ET q /Fm1 Do Q"),
+            6: Stream({"Type": "XObject", "Subtype": "Form", "BBox": [0, 0, 50, 50], "Filter": "NoSuchFilterDecode"}, b"BT /F1 8 Tf (B) Tj ET")}
+    return pdfgen.build(objs)
+
+
 def _extract_alone(arg):
     """[letter, page index] -> text of that page extracted on its own (called in a fresh interpreter through core.fresh_eval)"""
     from pdfminer import high_level
@@ -322,13 +332,14 @@ def h7_histories(n=3, timeout=200, part=None, **kw):
     from pdfminer import high_level
     # what the resource-less third page gives when extracted alone from a cold start (the reference for "one at a time instead of together")
     THIRD = {d: core.fresh_eval("C12", "_extract_alone", [d, 2]) for d in "XY"}
+    BAD = _bad_doc()
 
     def fn(ex):
         docs = {"X": _doc("X"), "Y": _doc("Y")}
         expect = {"X": ["X\n\n\x0c", "XX\n\n\x0c", THIRD["X"]], "Y": ["Y\n\n\x0c", "YY\n\n\x0c", THIRD["Y"]]}
         hist = []
         for i in range(n):
-            d = "XY"[ex.choice(2, "d%d" % i)]
+            d = "XYZ"[ex.choice(3, "d%d" % i)]          # Z: the document whose extraction fails with a figure open
             mode = ex.choice(4, "m%d" % i)           # whole document / page 0 only / page 1 only / page 2 only
             caching = ex.choice(2, "c%d" % i) == 1
             hist.append((d, mode, caching))
@@ -336,7 +347,16 @@ def h7_histories(n=3, timeout=200, part=None, **kw):
         info = {"hist": [list(h) for h in hist], "interleave": interleave}
         for i, (d, mode, caching) in enumerate(hist):
             pn = None if mode == 0 else [mode - 1]
-            got = high_level.extract_text(io.BytesIO(docs[d]), page_numbers=pn, caching=caching)
+            if d == "Z":
+                try:
+                    high_level.extract_text(io.BytesIO(BAD), caching=caching)
+                except Exception:
+                    pass                                  # how it fails is C13's subject; here only what it leaves behind matters
+                continue
+            try:
+                got = high_level.extract_text(io.BytesIO(docs[d]), page_numbers=pn, caching=caching)
+            except Exception as e:
+                ex.require(False, "call %d of the history %r raised %s: %s (in isolation it returns its text)" % (i, hist, type(e).__name__, e), **info)
             exp = "".join(expect[d]) if mode == 0 else expect[d][mode - 1]
             ex.require(got == exp, "call %d of the history %r returns %r, the same call in isolation returns %r" % (i, hist, got, exp), **info)
         if interleave:
@@ -406,7 +426,16 @@ def replay(harness, inp):
         expect = {"X": ["X\n\n\x0c", "XX\n\n\x0c", THIRD["X"]], "Y": ["Y\n\n\x0c", "YY\n\n\x0c", THIRD["Y"]]}
         for i, (d, mode, caching) in enumerate(inp["hist"]):
             pn = None if mode == 0 else [mode - 1]
-            got = high_level.extract_text(io.BytesIO(docs[d]), page_numbers=pn, caching=caching)
+            if d == "Z":
+                try:
+                    high_level.extract_text(io.BytesIO(_bad_doc()), caching=caching)
+                except Exception:
+                    pass
+                continue
+            try:
+                got = high_level.extract_text(io.BytesIO(docs[d]), page_numbers=pn, caching=caching)
+            except Exception as e:
+                return "history %r: call %d raised %s: %s" % (inp["hist"], i, type(e).__name__, e)
             exp = "".join(expect[d]) if mode == 0 else expect[d][mode - 1]
             if got != exp:
                 return "history %r: call %d returns %r, in isolation %r" % (inp["hist"], i, got, exp)
